@@ -30,6 +30,7 @@ def universes(tier, seed):
     ks = sorted(U.kernel_small(3))
     out.append(("KxK", [("u", ("k", a), ("k", b)) for a in ks for b in ks if a <= b]))
     out.append(("I3", [("i3", i) for i in range(len(U.I3_nets()))]))
+    out.append(("DEP4", [("bnet", t) for t in U.DEP4_bnets()]))
     if tier == "quick":
         out.append(("F3c", [("idx", 3, i) for i in U.F3_indices(True)]))
         out.append((f"MAA3[{seed % 128}/128]", [("idx", 3, i) for i in U.shard(U.catalogue("maa"), seed, 128)]))
